@@ -99,10 +99,13 @@ Record env := {
   plus : bool;             (* lbc.isNginxPlus = Configuration.isPlus (both from input.IsNginxPlus) *)
   ap_enabled : bool;       (* lbc.appProtectEnabled *)
   dos_enabled : bool;      (* lbc.appProtectDosEnabled *)
-  vsr_backup_fix : bool    (* false = /repo as it is; true = /repo with fixes/F19a.diff applied:
+  vsr_backup_fix : bool;   (* false = /repo without fixes/F19a.diff; true = with it:
                               the backup Service of a VirtualServerRoute upstream is looked up in the
                               route's namespace and IsReferencedByVirtualServerRoute matches it.
-                              The harness determines the flag by probing the real checker. *)
+                              The harness determines the three fix flags by probing the real functions. *)
+  backup_ep_fix : bool;    (* fixes/F19c.diff: virtualServerRequiresEndpointsUpdate also matches upstream.Backup *)
+  slice_delete_fix : bool  (* fixes/F19b.diff: the delete handler of EndpointSlices also queues the Service
+                              the slice belonged to (when it still exists) *)
 }.
 
 (* ------------------------------------------------------------------ resource skeletons *)
@@ -501,14 +504,17 @@ Definition via_policies (pols : list policy) (r : resource) : bool :=
 Definition ing_requires_update (svc : string) (i : ingress) : bool :=
   negb (i_use_cluster_ip i) && ing_services svc i.
 
-Definition requires_endpoints_update (svc : string) (r : resource) : bool :=
+Definition upstream_requires_update (e : env) (svc : string) (u : upstream) : bool :=
+  (String.eqb (u_service u) svc && negb (u_use_cluster_ip u)) ||
+  (backup_ep_fix e && String.eqb (u_backup u) svc).
+
+Definition requires_endpoints_update (e : env) (svc : string) (r : resource) : bool :=
   match r with
   | RIngress i => ing_requires_update svc i
   | RMergeable m ms => existsb (ing_requires_update svc) ms || ing_requires_update svc m
   | RVS v =>
-      existsb (fun u => String.eqb (u_service u) svc && negb (u_use_cluster_ip u)) (vs_upstreams v) ||
-      existsb (fun r => existsb (fun u => String.eqb (u_service u) svc && negb (u_use_cluster_ip u))
-                                (vsr_upstreams r)) (vs_vsrs v)
+      existsb (upstream_requires_update e svc) (vs_upstreams v) ||
+      existsb (fun r => existsb (upstream_requires_update e svc) (vsr_upstreams r)) (vs_vsrs v)
   | RTS _ => true
   end.
 
@@ -522,7 +528,7 @@ Definition reaches (e : env) (cl : cluster) (k : kind) (ns name : string) (r : r
   match k with
   | KSecret => finds (secret_checker e) ns name r || via_policies (policies_for_secret cl ns name) r
   | KService => finds (service_checker e false) ns name r
-  | KEndpoints => finds (service_checker e false) ns name r && requires_endpoints_update name r
+  | KEndpoints => finds (service_checker e false) ns name r && requires_endpoints_update e name r
   | KPolicy => finds policy_checker ns name r
   | KApPolicy => finds (ap_checker i_ap_policy) ns name r || via_policies (waf_policies_for cl KApPolicy (key ns name)) r
   | KApLogConf => finds (ap_checker i_ap_logconf) ns name r || via_policies (waf_policies_for cl KApLogConf (key ns name)) r
@@ -548,11 +554,16 @@ Inductive op := Add | Update | Delete.
    DosProtectedResource / App Protect resource when the spec differs, a Secret / EndpointSlice when the
    objects differ.  [relevant] is that verdict, an explicit argument.  The sync functions compute the
    affected resources before looking at existence, except syncEndpointSlices, which returns early
-   when the EndpointSlice is gone. *)
+   when the EndpointSlice is gone; with fixes/F19b.diff the delete handler also queues the Service of the
+   slice if it is still in the store, and syncService regenerates everything FindResourcesForService
+   returns (no endpoints filter). *)
 Definition event_reaches (e : env) (cl : cluster) (k : kind) (o : op) (relevant : bool)
            (ns name : string) (r : resource) : bool :=
   match k, o with
-  | KEndpoints, Delete => false
+  | KEndpoints, Delete =>
+      slice_delete_fix e &&
+      (match svc_of cl (key ns name) with Some _ => true | None => false end) &&
+      finds (service_checker e false) ns name r
   | _, Update => relevant && reaches e cl k ns name r
   | _, _ => reaches e cl k ns name r
   end.
@@ -566,8 +577,8 @@ Definition event_reaches (e : env) (cl : cluster) (k : kind) (o : op) (relevant 
 Definition refuted_pos (e : env) (p : pos) (k : kind) : bool :=
   match p, k with
   | PVsrUpstreamBackup, KService => negb (vsr_backup_fix e)
-  | PVsUpstreamBackup, KEndpoints => true
-  | PVsrUpstreamBackup, KEndpoints => true
+  | PVsUpstreamBackup, KEndpoints => negb (backup_ep_fix e)
+  | PVsrUpstreamBackup, KEndpoints => negb (backup_ep_fix e && vsr_backup_fix e)
   | _, _ => false
   end.
 
